@@ -35,6 +35,7 @@ def __reset__():
     global G2
     del LOG[:]
     del EV[:]
+    del TAGGED[:]
     G2 = 0
     for r in RESETS:
         r()
@@ -50,8 +51,13 @@ def __s__(site, v):
     LOG.append(("s", site, _norm(v)))
     return v
 
-def __b__(fn, name, v):
-    return HOOK[0](fn, "var", name, v)
+TAGGED = []
+
+def __b__(fn, name, v, tags=None):
+    r = HOOK[0](fn, "var", name, v)
+    if tags is not None:
+        TAGGED.append((fn, name, _norm(r), tags))
+    return r
 
 def __m__(fn, name, v):
     return HOOK[0](fn, "meta", name, v)
@@ -184,10 +190,11 @@ class Gen:
         if name not in lst:
             lst.append(name)
 
-    def bind_hook(self, em, fn, name):
+    def bind_hook(self, em, fn, name, tags=None):
         """T-only: the event for a binding of `name` that has just happened."""
         self.note_bind(fn, name)
-        em.tonly(f"{name} = __b__({fn!r}, {name!r}, {name})")
+        extra = f", {tuple(tags)!r}" if tags is not None else ""
+        em.tonly(f"{name} = __b__({fn!r}, {name!r}, {name}{extra})")
 
     # ---- expressions: return (p, t) ---------------------------------------
     def expr(self, ctx, depth=0):
@@ -385,6 +392,7 @@ class Gen:
         name = self.rnd.choice(LOCALS)
         p, t = self.expr(ctx)
         self.feat("annassign")
+        tags = None
         if self.o["tags"] and self.rnd.random() < 0.7:
             tags = self.tagset()
             ann = self.ann_text(tags)
@@ -392,8 +400,7 @@ class Gen:
         else:
             ann = "int"
         em.both(f"{name}: {ann} = {p}", f"{name}: {ann} = {t}")
-        self.note_bind(ctx["fn"], name)
-        em.tonly(f"{name} = __b__({ctx['fn']!r}, {name!r}, {name})")
+        self.bind_hook(em, ctx["fn"], name, tags=sorted(set(tags)) if tags else None)
         ctx["bound"].add(name)
 
     def s_tuple(self, em, ctx, depth):
@@ -921,7 +928,8 @@ class Gen:
         em.tonly("try:")
         em.it += 1
         for n in pnames:
-            self.bind_hook(em, name, n)
+            ptags = self.anns.get(name, {}).get(n)
+            self.bind_hook(em, name, n, tags=ptags[0] if ptags else None)
         n = nstmts if nstmts is not None else rnd.randint(2, self.o["max_stmts"])
         for _ in range(n):
             self.stmt(em, ctx, 0)
